@@ -563,6 +563,37 @@ func callerSource(kind string, content []byte) (io.Reader, func(after string), b
 	return nil, nil, false
 }
 
+// consumedSource builds a sized reader (Size/Len methods) over used+rest and
+// consumes the first len(used) bytes by Read or by Seek before it is handed over.
+func consumedSource(kind string, used, rest []byte, via string) (io.Reader, bool) {
+	all := append(append([]byte{}, used...), rest...)
+	var r interface {
+		io.Reader
+		io.Seeker
+	}
+	switch kind {
+	case "bytesreader":
+		r = bytes.NewReader(all)
+	case "strings":
+		r = strings.NewReader(string(all))
+	case "section":
+		r = io.NewSectionReader(bytes.NewReader(append([]byte("xx"), all...)), 2, int64(len(all)))
+	default:
+		return nil, false
+	}
+	switch via {
+	case "seek":
+		if _, err := r.Seek(int64(len(used)), io.SeekStart); err != nil {
+			return nil, false
+		}
+	default:
+		if _, err := io.ReadFull(r, make([]byte, len(used))); err != nil {
+			return nil, false
+		}
+	}
+	return r, true
+}
+
 // create runs one Create call; the result is canonical: "ok <key>", "err <code>", "panic".
 func doCreate(st objects.Objects, r io.Reader) (res string) {
 	defer func() {
@@ -690,7 +721,7 @@ func (c *ctx) runOp(line string) string {
 	all := strings.Fields(line)
 	var ws []string
 	for _, w := range all {
-		if !strings.HasPrefix(w, "sha=") && !strings.HasPrefix(w, "cls=") && !strings.HasPrefix(w, "src=") && !strings.HasPrefix(w, "after=") {
+		if !strings.HasPrefix(w, "sha=") && !strings.HasPrefix(w, "cls=") && !strings.HasPrefix(w, "src=") && !strings.HasPrefix(w, "after=") && !strings.HasPrefix(w, "used=") && !strings.HasPrefix(w, "via=") {
 			ws = append(ws, w)
 		}
 	}
@@ -725,7 +756,15 @@ func (c *ctx) runOp(line string) string {
 		if hasSrc {
 			content, ending, _ := scriptOutcome(script)
 			var ok bool
-			src, afterFn, ok = callerSource(srcKind, content)
+			if usedHex, has := kvGet(all, "used"); has {
+				// a sized reader handed over after `used` bytes of it were consumed (a header
+				// was read, or a Seek): what Create must store is what REMAINS
+				via, _ := kvGet(all, "via")
+				src, ok = consumedSource(srcKind, hx.UnHex(usedHex), content, via)
+				afterFn = func(string) {}
+			} else {
+				src, afterFn, ok = callerSource(srcKind, content)
+			}
 			if !ok || ending != 'e' {
 				return "bad-op"
 			}
@@ -746,6 +785,12 @@ func (c *ctx) runOp(line string) string {
 			}
 			for k, want := range c.srcObjs[ws[1]] {
 				if got := doOpen(st, k); got != "ok "+hx.Hex(want) {
+					if _, consumed := kvGet(all, "used"); consumed {
+						c.fail("create-from-consumed-reader-wrong", fmt.Sprintf(
+							"a %s reader was handed to Create after part of it had been consumed; Open(%s) in the %s store returns %s, not the %d bytes that remained to be read",
+							srcKind, k, ws[1], clip(got), len(want)))
+						break
+					}
 					c.fail("stored-object-aliases-callers-buffer", fmt.Sprintf(
 						"after Create(%s source) returned and the caller reused its %s, Open(%s) in the %s store no longer returns the %d bytes that were created (got %s)",
 						srcKind, srcKind, k, ws[1], len(want), clip(got)))
@@ -1813,6 +1858,30 @@ func (g *gen) callerSources(thorough bool) {
 				keys = append(keys, shaHex(content))
 				rep.Count("caller-source-" + store + "-" + kind)
 				rep.Case(fmt.Sprintf("create %s src=%s size=%d", store, kind, size), true)
+			}
+		}
+		// sized readers handed over after 1, half, all-but-one and all of their bytes were consumed
+		total := []int{2, 9, 64, 4097}
+		if thorough {
+			total = []int{1, 2, 3, 9, 64, 511, 4096, 4097, 70000}
+		}
+		for _, n := range total {
+			whole := g.content(n)
+			for _, kind := range []string{"bytesreader", "strings", "section"} {
+				for _, via := range []string{"read", "seek"} {
+					for _, used := range []int{1, n / 2, n - 1, n} {
+						if used < 0 || used > n {
+							continue
+						}
+						rest := whole[used:]
+						s := []item{{data: rest, flag: 'n'}, {flag: 'e'}}
+						line := withSha("create "+store+" "+showScript(s), s) + " src=" + kind + " used=" + hx.Hex(whole[:used]) + " via=" + via
+						g.emit(line)
+						keys = append(keys, shaHex(rest))
+						rep.Count("consumed-source-" + store + "-" + kind + "-" + via)
+						rep.Case(fmt.Sprintf("create %s src=%s via=%s n=%d used=%d", store, kind, via, n, used), true)
+					}
+				}
 			}
 		}
 		for _, k := range keys {
